@@ -29,6 +29,12 @@ def ref_case(g, props, flagset="std", unconstrained=False, entry="", file_name="
                          meta={"flagset": flagset})
 
 
+def rnd_cat(tier, seed, nq, nt, features=(), depth=3):
+    """Seeded random well-formed grammars (catalog/cores.py random_grammars): the program dimension
+    beyond the hand-written catalogue; a different VERIF_SEED explores a different sample."""
+    return cores.random_grammars(seed, nq if tier == "quick" else nt, features=("pred", "label", "act") + tuple(features), depth=depth)
+
+
 def std_cov(report, agg, cases, bounds, rule, functions):
     report.cov.update({
         "states": agg["paths"], "transitions": agg["decisions"],
@@ -77,6 +83,10 @@ def check_C01(tier, seed):
         for g in cat[::2]:
             for fs in ("opt", "bl", "lr", "all"):
                 cases.append(ref_case(g, ["C01"], flagset=fs))
+    rg = rnd_cat(tier, seed, 24, 300, ("state", "throw"))
+    for g in rg:
+        for fs in ("std", "opt"):
+            cases.append(ref_case(g, ["C01"], flagset=fs))
     cases.append(ref_case(cat[0], ["TWIN"], suffix="_twin"))
     catcheck.prepare(w, cases)
     agg = catcheck.explore(w, rep, [c for c in cases if not c.id.endswith("_twin")], "C01", r"Harness_C01$", N, tmo, "ref", seed=seed,
@@ -87,7 +97,8 @@ def check_C01(tier, seed):
     if tw == 0:
         rep.inconclusive.append("vacuity twin was not violated: the harness does not reach its assertions")
     std_cov(rep, agg, cases, {"input_bytes_max": N, "alphabet": "terminal bytes of the grammar (both cases) + \\n z 0xC3 0xA9",
-                              "grammars": len(cases), "ssa_step_limit_per_path": 2000000},
+                              "grammars": len(cases), "random_grammars": "%d (seed %d; 1-3 rules, expression depth <= 3, all operators incl. state blocks and throw/recover)" % (len(rg), seed),
+                              "ssa_step_limit_per_path": 2000000},
             "one state = one explored path (an equivalence class of inputs driving the generated parser and the reference the same way); distinct_nontrivial = paths completed with all assertions decided",
             RUNTIME_FUNCS)
     rep.cov["vacuity_twin_violated"] = tw > 0
@@ -175,7 +186,7 @@ def check_C15(tier, seed):
 
 def run_ref_property(prop, tier, seed, cat, hprops, Nq, Nt, tq=60, tt=900, flagsets_q=("std",), flagsets_t=("std", "opt"),
                      unconstrained=False, bounds_extra=None, assumptions=(), file_name="", level="model_checking", quick_stride=1,
-                     post=None, max_steps=2_000_000, lemmas=None):
+                     post=None, max_steps=2_000_000, lemmas=None, rnd=None):
     rep = Report(prop, tier, seed, level)
     w = Work()
     w.build_pigeon()
@@ -187,6 +198,13 @@ def run_ref_property(prop, tier, seed, cat, hprops, Nq, Nt, tq=60, tt=900, flags
     for g in use:
         for fs in fss:
             cases.append(ref_case(g, hprops, flagset=fs, unconstrained=unconstrained, file_name=file_name))
+    nrnd = 0
+    if rnd:
+        rg = rnd_cat(tier, seed, rnd[0], rnd[1], rnd[2])
+        nrnd = len(rg)
+        for g in rg:
+            for fs in fss:
+                cases.append(ref_case(g, hprops, flagset=fs, unconstrained=unconstrained, file_name=file_name))
     twin = ref_case(cat[0], ["TWIN"], flagset=fss[0], suffix="_twin")
     catcheck.prepare(w, cases + [twin])
     agg = catcheck.explore(w, rep, cases, prop, r"Harness_%s$" % hprops[0], N, tmo, "ref", seed=seed,
@@ -196,6 +214,8 @@ def run_ref_property(prop, tier, seed, cat, hprops, Nq, Nt, tq=60, tt=900, flags
         run_lemmas(w, rep, prop, lemmas, 1 if quick else 2)
     b = {"input_bytes_max": N, "grammars": len(cases), "flag_sets": list(fss), "ssa_step_limit_per_path": max_steps,
          "alphabet": "all 256 byte values" if unconstrained else "terminal bytes of the grammar (both cases) + \\n z 0xC3 0xA9"}
+    if rnd:
+        b["random_grammars"] = "%d (seed %d; 1-3 rules, expression depth <= 3, features %s)" % (nrnd, seed, "+".join(("pred", "label", "act") + tuple(rnd[2])))
     b.update(bounds_extra or {})
     std_cov(rep, agg, cases, b,
             "one state = one explored path (class of inputs driving the generated parser and the reference the same way); distinct_nontrivial = paths completed with all assertions decided",
@@ -208,7 +228,7 @@ def run_ref_property(prop, tier, seed, cat, hprops, Nq, Nt, tq=60, tt=900, flags
 
 
 def check_C12(tier, seed):
-    return run_ref_property("C12", tier, seed, cores.fail_catalogue() + cores.pair_core()[::4], ["C12"], 4, 6, tq=120, tt=1800)
+    return run_ref_property("C12", tier, seed, cores.fail_catalogue() + cores.pair_core()[::4], ["C12"], 4, 6, tq=120, tt=1800, rnd=(24, 200, ("throw",)))
 
 
 def check_C17(tier, seed):
@@ -217,15 +237,15 @@ def check_C17(tier, seed):
 
 
 def check_C02(tier, seed):
-    return run_ref_property("C02", tier, seed, cores.context_catalogue() + cores.composites(), ["C02"], 4, 5, tq=120, lemmas=["Action", "Label"])
+    return run_ref_property("C02", tier, seed, cores.context_catalogue() + cores.composites(), ["C02"], 4, 5, tq=120, lemmas=["Action", "Label"], rnd=(16, 150, ("state",)))
 
 
 def check_C05(tier, seed):
-    return run_ref_property("C05", tier, seed, cores.state_catalogue(), ["C05"], 4, 5, flagsets_q=("std", "opt"), quick_stride=1, tq=120, tt=1800, lemmas=["Seq", "Choice", "And", "Not", "Action", "Star", "Opt"])
+    return run_ref_property("C05", tier, seed, cores.state_catalogue(), ["C05"], 4, 5, flagsets_q=("std", "opt"), quick_stride=1, tq=120, tt=1800, lemmas=["Seq", "Choice", "And", "Not", "Action", "Star", "Opt"], rnd=(16, 200, ("state",)))
 
 
 def check_C14(tier, seed):
-    return run_ref_property("C14", tier, seed, cores.throw_catalogue(), ["C14"], 4, 6, flagsets_q=("std", "opt"), tq=120, tt=1800, lemmas=["Recovery", "Throw"])
+    return run_ref_property("C14", tier, seed, cores.throw_catalogue(), ["C14"], 4, 6, flagsets_q=("std", "opt"), tq=120, tt=1800, lemmas=["Recovery", "Throw"], rnd=(16, 200, ("throw",)))
 
 
 def check_C11(tier, seed):
@@ -254,11 +274,13 @@ def check_C10(tier, seed):
         for g in cat:
             for k, x in enumerate(xs if not quick else xs[:2]):
                 cases.append(rel_case(g, ["C10"], x, x + ["-optimize-parser"], suffix="_x%d" % k))
+    for g in rnd_cat(tier, seed, 24, 250, ("state", "throw")):
+        cases.append(rel_case(g, ["C10"], [], ["-optimize-parser"]))
     twin = rel_case(pc[0], ["TWIN"], [], ["-optimize-parser"], suffix="_twin")
     catcheck.prepare(w, cases + [twin])
     agg = catcheck.explore(w, rep, cases, "C10", r"Harness_C10$", N, tmo, "rel", seed=seed, validate_pkgs=6 if quick else 20)
     twin_check(w, rep, twin)
-    std_cov(rep, agg, cases, {"input_bytes_max": N, "flag_pairs": "(X, X + -optimize-parser), X in {none, -optimize-basic-latin, -optimize-grammar, -support-left-recursion}"},
+    std_cov(rep, agg, cases, {"input_bytes_max": N, "random_grammars": "seeded sample (seed %d), see catalog/cores.py random_grammars" % seed, "flag_pairs": "(X, X + -optimize-parser), X in {none, -optimize-basic-latin, -optimize-grammar, -support-left-recursion}"},
             "one state = one explored path (class of inputs on which both real parsers take the same decisions)", REL_FUNCS)
     rep.cov["disagreements_checked"] = agg["cex"]
     rep.assumptions += ["grammars outside the catalogue and inputs longer than the bound are outside the claim", "default runtime options"]
@@ -280,11 +302,13 @@ def check_C09(tier, seed):
         if alt:
             bflags += ["-alternate-entrypoints", ",".join(alt)]
         cases.append(rel_case(g, ["C09"], [], bflags, entries=ents))
+    for g in rnd_cat(tier, seed, 24, 250, ("throw",)):
+        cases.append(rel_case(g, ["C09"], [], ["-optimize-grammar"]))
     twin = rel_case(cat[0], ["TWIN"], [], ["-optimize-grammar"], suffix="_twin")
     catcheck.prepare(w, cases + [twin])
     agg = catcheck.explore(w, rep, cases, "C09", r"Harness_C09$", N, tmo, "rel", seed=seed, validate_pkgs=6 if quick else 20)
     twin_check(w, rep, twin)
-    std_cov(rep, agg, cases, {"input_bytes_max": N, "entrypoints": "first rule and every rule in -alternate-entrypoints"},
+    std_cov(rep, agg, cases, {"input_bytes_max": N, "random_grammars": "seeded sample (seed %d), see catalog/cores.py random_grammars" % seed, "entrypoints": "first rule and every rule in -alternate-entrypoints"},
             "one state = one explored path (class of inputs on which the optimized and the unoptimized real parser take the same decisions)", REL_FUNCS)
     rep.cov["disagreements_checked"] = agg["cex"]
     rep.assumptions += ["grammars outside the catalogue and inputs longer than the bound are outside the claim"]
@@ -312,12 +336,13 @@ def check_C06(tier, seed):
     N, tmo = (3, 90) if quick else (4, 900)
     pc = cores.pair_core()
     cat = cores.memo_catalogue() + (pc[::4] if quick else pc) + cores.composites() + cores.fail_catalogue() + [g for g in cores.context_catalogue() if not gspec.uses_state(g)]
+    cat = cat + rnd_cat(tier, seed, 12, 150)
     cases = [rel_case(g, ["C06"], [], []) for g in cat]
     twin = rel_case(pc[0], ["TWIN"], [], [], suffix="_twin")
     catcheck.prepare(w, cases + [twin])
     agg = catcheck.explore(w, rep, cases, "C06", r"Harness_C06$", N, tmo, "rel", seed=seed, validate_pkgs=6 if quick else 20)
     twin_check(w, rep, twin)
-    std_cov(rep, agg, cases, {"input_bytes_max": N, "options": "Memoize, Debug, Statistics symbolic booleans (8 combinations)"},
+    std_cov(rep, agg, cases, {"input_bytes_max": N, "random_grammars": "seeded sample (seed %d), see catalog/cores.py random_grammars" % seed, "options": "Memoize, Debug, Statistics symbolic booleans (8 combinations)"},
             "one state = one explored path (input class x option combination)", REL_FUNCS + ["getMemoized/setMemoized", "parseRuleMemoize", "incChoiceAltCnt"])
     rep.cov["disagreements_checked"] = agg["cex"]
     rep.assumptions += ["fmt.Printf (Debug output) is an empty stub: formatting is not the subject", "pure code blocks only (no state blocks, no throw/recover)"]
